@@ -41,6 +41,11 @@ def run(ctx):
                     ctx.fail("%s %s" % (oblig.split(",")[0], n["checker"]),
                              "diagnostic of %s while analysing %s violates %s" % (n["checker"], n["file"], d),
                              {"cmd": "vh lifecycle " + " ".join(args), "nonconf": n})
+            elif n["kind"] == "ProtocolSkipped":
+                probs = [d for d in n["detail"] if d.startswith("obligation ")]
+                if probs:
+                    ctx.fail("%s %s" % (probs[0].split()[1].split(",")[0].split(":")[0], n["checker"]),
+                             "%s returned diagnostics for %s without walking it: %s" % (n["checker"], n["file"], probs[0]), {"nonconf": n})
             elif n["kind"] in ("Panic", "Timeout"):
                 ctx.notes.append("%s of %s on %s (a C01 matter)" % (n["kind"], n["checker"], n["file"]))
     lc.canary(ctx, first_trace, lambda e: dict(e, warnOK=False) if e["ev"] == "Walked" and e["got"] != "" else None)
